@@ -45,7 +45,8 @@ class WorldC07(World):
               'cti-executed', 'yaml-loaded', 'reactor-yaml', 'reactor-reused-dict', 'numpy-values', 'string-values-with-units',
               'units-omitted', 'text-path', 'file-path', 'overwrite', 'write-after-failed-write', 'recovery-after-fault',
               'clock-jump-before-write', 'default-units', 'bep-section-judged', 'same-size-other-elements-after-a-write',
-              'explicit-zero-barrier', 'non-ascii-name', 'write-with-partial-membership', 'nasa9-ranges-judged')
+              'explicit-zero-barrier', 'non-ascii-name', 'write-with-partial-membership', 'nasa9-ranges-judged', 'reactor-initial-state',
+              'capitalised-phase-names', 'phase-mechanism-links-judged')
     REAL = ('pmutt.io.omkm (write_cti, write_thermo_yaml, write_yaml, organize_phases)', 'pmutt.omkm.phase / pmutt.cantera.phase',
             'pmutt.omkm.reaction.SurfaceReaction / BEP', 'pmutt.mixture.cov.PiecewiseCovEffect', 'Nasa / Nasa9 / Shomate emitters',
             'pmutt.io.ctml_writer (the repo\'s CTI interpreter, used to execute written CTI text)', 'PyYAML')
@@ -68,7 +69,7 @@ class WorldC07(World):
                 'route': rng.choice(['organize', 'manual', 'manual']), 'n_rxn': rng.choice([0, 1, 3, 6, 12, 40]),
                 'n_inter': rng.choice([0, 0, 2, 5, 10]), 'kinds': rng.choice([['Nasa'], ['Nasa', 'Shomate'], ['Nasa', 'Shomate', 'Nasa9']]),
                 'w_model': rng.choice([1, 2, 3]), 'w_write': rng.choice([2, 3]), 'w_reactor': rng.choice([1, 1, 3]), 'enum': tier == 'thorough' and rng.random() < 0.15,
-                'long_names': rng.random() < 0.4}
+                'long_names': rng.random() < 0.4, 'cap_names': rng.random() < 0.3}
 
     def n_steps(self, rng, swarm):
         return rng.randint(5, 18)
@@ -104,11 +105,17 @@ class WorldC07(World):
     def _gen_model(self, rng):
         sw = self.ctx.swarm
         surf = SURF[:sw['n_surf']]
+        GAS, BULK = 'gas', 'bulk'
+        if sw.get('cap_names'):
+            # phase names as people type them: 'Gas', 'Bulk', 'Terrace'
+            surf = [x.capitalize() for x in surf]
+            GAS, BULK = 'Gas', 'Bulk'
+            self.ctx.probe('capitalised-phase-names')
         el = lambda: {e: rng.randint(1, 3) for e in rng.sample(['H', 'N', 'C', 'O'], rng.randint(1, 2))}
         sp = []
         for nm in rng.sample(['H2', 'N2', 'NH3', 'CO', 'CH4', 'O2'], rng.randint(1, 4)):
-            sp.append({'name': nm, 'phase': 'gas', 'elements': el(), 'n_sites': None})
-        sp.append({'name': 'RU(B)', 'phase': 'bulk', 'elements': {'Ru': 1}, 'n_sites': None})
+            sp.append({'name': nm, 'phase': GAS, 'elements': el(), 'n_sites': None})
+        sp.append({'name': 'RU(B)', 'phase': BULK, 'elements': {'Ru': 1}, 'n_sites': None})
         for s in surf:
             tag = s[0].upper()
             sp.append({'name': 'RU(%s)' % tag, 'phase': s, 'elements': {'Ru': 1}, 'n_sites': 1})
@@ -127,7 +134,7 @@ class WorldC07(World):
             d['scale'] = round(rng.uniform(0.8, 1.2), 4)
             d['shift'] = round(rng.uniform(-6000, 6000), 1)
         ts, beps, rxs = [], [], []
-        gas = [d['name'] for d in sp if d['phase'] == 'gas']
+        gas = [d['name'] for d in sp if d['phase'] == GAS]
         id_style = rng.choice(['auto', 'auto', 'user', 'mixed'])
         for r in range(rng.randint(0, sw['n_rxn']) if sw['n_rxn'] else 0):
             s = rng.choice(surf)
@@ -174,10 +181,15 @@ class WorldC07(World):
             iv = [0.0] + sorted(set(round(rng.uniform(0.1, 0.9), 2) for _ in range(n - 1))) + [1.0]
             inter.append({'name_i': rng.choice(ads), 'name_j': rng.choice(ads), 'intervals': iv,
                           'slopes': [round(rng.uniform(-60, 10), 2) for _ in iv[:-1]], 'name': rng.choice([None, None, 'li_%04d' % (50 + i)])})
-        rows = [{'name': 'gas', 'phase_type': 'IdealGas'}, {'name': 'bulk', 'phase_type': 'StoichSolid', 'density': round(rng.uniform(5, 25), 2)}]
+        rows = [{'name': GAS, 'phase_type': 'IdealGas'}, {'name': BULK, 'phase_type': 'StoichSolid', 'density': round(rng.uniform(5, 25), 2)}]
         for s in surf:
             rows.append({'name': s, 'phase_type': 'InteractingInterface', 'site_density': round(10 ** rng.uniform(-10, -8.5), 13),
-                         'phases': ['gas', 'bulk']})
+                         'phases': [GAS, BULK]})
+        if rng.random() < 0.4:
+            # the gas the reactor starts with: ordinary fractions, a ppm-level impurity, a nearly pure carrier
+            gs = [d['name'] for d in sp if d['phase'] == GAS]
+            vals = [rng.choice([0.5, 0.25, 1.234567e-4, 4e-8, 0.99999975, round(rng.uniform(0, 1), 6)]) for _ in gs]
+            rows[0]['initial_state'] = {n: v for n, v in zip(gs, vals)}
         return {'species': sp, 'ts': ts, 'beps': beps, 'reactions': rxs, 'interactions': inter, 'rows': rows}
 
     def _gen_units(self, rng):
@@ -773,6 +785,30 @@ class WorldC07(World):
                 if isinstance(sd, tuple) and sd[1] != '%s/%s^2' % (units.quantity, units.length):
                     raise Violation('phases-say-what-the-objects-say', '%s: phase %r site density unit %r' % (what, nm, sd[1]))
 
+    def _judge_links(self, plist, order, what):
+        """What each phase says about the mechanism it takes part in: reactions, lateral interactions and BEP relations
+        are 'none' exactly when the phase has none."""
+        md = self.md
+        for p in plist:
+            nm = p.get('name')
+            row = [r for r in md['rows'] if r['name'] == nm]
+            if not row or row[0]['phase_type'] == 'StoichSolid':
+                continue
+            mine = [i for i in order if any(self._phase_of(n) == nm for n, _ in md['reactions'][i]['reactants'] +
+                                            md['reactions'][i]['products'])]
+            want = {'reactions': bool(mine)}
+            if row[0]['phase_type'] == 'InteractingInterface':
+                want['interactions'] = any(self._phase_of(i['name_i']) == nm for i in md['interactions'])
+                want['beps'] = any(md['reactions'][i]['bep'] is not None for i in mine)
+            for key, has in want.items():
+                said = p.get(key)
+                if said is None:
+                    continue
+                if (str(said) != 'none') != has:
+                    raise Violation('phases-say-what-the-objects-say', '%s: phase %r says %s: %r, but it %s' % (
+                        what, nm, key, said, 'has some' if has else 'has none'))
+            self.ctx.probe('phase-mechanism-links-judged')
+
     def _judge_reactions(self, entries, order, units, tw, a, what):
         """entries: list of dict(equation, id, kind, A, b, Ea)."""
         md = self.md
@@ -904,6 +940,7 @@ class WorldC07(World):
                 return (val, unit)
             return p.get(k)
         self._judge_phases(doc.get('phases') or [], units, what, get)
+        self._judge_links(doc.get('phases') or [], order, what)
         entries = []
         for r in doc.get('reactions') or []:
             if 'sticking-coefficient' in r:
@@ -1211,6 +1248,27 @@ class WorldC07(World):
                           for r in self.md['rows'])
             if sorted(names) != want:
                 raise Violation('reactor-every-supplied-value', '%s: phases section names %r, model has %r' % (what, sorted(names), want))
+            for k, v in ph.items():
+                for entry in (v if isinstance(v, list) else [v]):
+                    row = [r_ for r_ in self.md['rows'] if r_['name'] == norm(entry.get('name'))][0]
+                    ist = row.get('initial_state')
+                    got_is = entry.get('initial_state')
+                    if ist is None:
+                        if got_is is not None:
+                            raise Violation('reactor-nothing-else', '%s: phase %s has an initial state %r nobody supplied' % (
+                                what, row['name'], got_is))
+                        continue
+                    self.ctx.probe('reactor-initial-state')
+                    try:
+                        parsed = {}
+                        for part in str(got_is).strip().strip('"').split(','):
+                            nm_, val_ = part.rsplit(':', 1)
+                            parsed[nm_.strip()] = float(val_)
+                    except (ValueError, AttributeError):
+                        raise Violation('reactor-every-supplied-value', '%s: initial state of phase %s is %r' % (what, row['name'], got_is))
+                    if parsed != {n_: float(v_) for n_, v_ in ist.items()}:
+                        raise Violation('reactor-every-supplied-value', '%s: initial state of phase %s written as %r, supplied %r' % (
+                            what, row['name'], parsed, ist))
         elif 'phases' in doc:
             raise Violation('reactor-nothing-else', '%s: a phases section appears although no phases were supplied' % what)
 
